@@ -334,6 +334,9 @@ func (h *Server) step(what string) {
 	h.Events++
 	h.EventLog = append(h.EventLog, what)
 	h.S.Run()
+	if h.S.Overrun {
+		panic(fmt.Sprintf("harness: step horizon (%d scheduler steps) exceeded after %d events; live: %v", h.S.MaxStep, h.Events, h.S.Live()))
+	}
 	h.collect()
 	if h.C.Closed() && h.ConnClosedAt < 0 {
 		h.ConnClosedAt = h.Events
